@@ -762,8 +762,8 @@ def with_spacetime(draw, case):
         out = S.out_name(expr)
         lo = (spec.get("loop_order") or {}).get(out)
         if not lo:
-            if case.get("family") in ("flat",) or case.get("template"):
-                continue        # default order of flattened / affine mappings is not reconstructed here
+            if case.get("family") in ("flat", "flat2") or any(k.startswith("(") for k, _ in (spec.get("partitioning") or {}).get(out, [])):
+                continue        # the default order of flattened mappings is not defined by the property (C19): not reconstructed
             lo = default_loop_ranks(spec, expr)
             if not lo:
                 continue
